@@ -16,9 +16,13 @@ def presentVotes (ss : Sealed) (proof : List (Bytes × Bytes)) : Nat :=
 
 def totalVotes (ss : Sealed) : Nat := ss.st.stakes.totalVotes ss.st.epoch
 
-/-- tallies fit the u128 the implementation sums in (true whenever the staked supply is < 2^128) -/
+/-- tallies fit the u128 the implementation sums in (true whenever the staked supply is < 2^128 - 1).
+    Since the `fix:` for the vote-sum overflow the tallies saturate and a total of exactly
+    `u128::MAX` is treated as "saturated" (`confirm` returns `None`), so the total must be strictly
+    below it; see `C14_saturated_total` for the other side and `C14_decision_total` for the form
+    that needs no bound on the signers' tally at all. -/
 def TalliesFit (ss : Sealed) (proof : List (Bytes × Bytes)) : Prop :=
-  totalVotes ss ≤ U128_MAX ∧ presentVotes ss proof ≤ U128_MAX
+  totalVotes ss < U128_MAX ∧ presentVotes ss proof ≤ U128_MAX
 
 /-- any invalid signature makes the proof fail, whatever the stake behind it -/
 theorem C14_invalid_signature (env : Env) (ss : Sealed) (hdr : Header) (proof : List (Bytes × Bytes))
@@ -30,15 +34,14 @@ theorem C14_invalid_signature (env : Env) (ss : Sealed) (hdr : Header) (proof : 
     exact ⟨e, he, by simpa [validEntry] using hbad⟩
   rw [hall]; rfl
 
-/-- decision logic stated outright -/
-theorem C14_decision (env : Env) (ss : Sealed) (hdr : Header) (proof : List (Bytes × Bytes))
-    (hh : headerOf env ss = .ok hdr) (hfit : TalliesFit ss proof) :
+/-- decision logic stated outright; only the total has to fit (a signers' tally above `u128::MAX`
+    saturates, and a saturated tally still exceeds two thirds of a total that fits) -/
+theorem C14_decision_total (env : Env) (ss : Sealed) (hdr : Header) (proof : List (Bytes × Bytes))
+    (hh : headerOf env ss = .ok hdr) (ht : totalVotes ss < U128_MAX) :
     confirm env ss proof = .ok (decide ((∀ e ∈ proof, validEntry env hdr e = true) ∧
                                          3 * presentVotes ss proof > 2 * totalVotes ss)) := by
   rw [confirm_eq env ss hdr proof hh]
-  obtain ⟨ht, hp⟩ := hfit
   unfold totalVotes at ht
-  unfold presentVotes at hp
   by_cases hv : ∀ e ∈ proof, validEntry env hdr e = true
   · have hall : (proof.all fun e => e.2.length = 64 && env.vm.sigOk e.1 (env.hdrHash hdr) e.2) = true := by
       rw [List.all_eq_true]
@@ -46,8 +49,7 @@ theorem C14_decision (env : Env) (ss : Sealed) (hdr : Header) (proof : List (Byt
       have := hv e he
       simpa [validEntry] using this
     rw [hall]
-    have hnc : ¬ (ss.st.stakes.totalVotes ss.st.epoch > U128_MAX
-              ∨ (proof.map fun e => ss.st.stakes.votes ss.st.epoch e.1).sum > U128_MAX) := by omega
+    have hnc : ¬ (ss.st.stakes.totalVotes ss.st.epoch ≥ U128_MAX) := by omega
     simp only [Bool.not_true, Bool.false_eq_true, if_false, if_neg hnc]
     congr 1
     unfold presentVotes totalVotes
@@ -67,6 +69,65 @@ theorem C14_decision (env : Env) (ss : Sealed) (hdr : Header) (proof : List (Byt
       apply decide_eq_false
       intro h; exact hv h.1
     rw [this]; rfl
+
+/-- decision logic stated outright -/
+theorem C14_decision (env : Env) (ss : Sealed) (hdr : Header) (proof : List (Bytes × Bytes))
+    (hh : headerOf env ss = .ok hdr) (hfit : TalliesFit ss proof) :
+    confirm env ss proof = .ok (decide ((∀ e ∈ proof, validEntry env hdr e = true) ∧
+                                         3 * presentVotes ss proof > 2 * totalVotes ss)) :=
+  C14_decision_total env ss hdr proof hh hfit.1
+
+/-- since the `fix:` the tallies saturate: once the header is there `confirm` always returns a
+    verdict (the header computation is the only thing in it that can still fail) -/
+theorem C14_confirm_total (env : Env) (ss : Sealed) (hdr : Header) (proof : List (Bytes × Bytes))
+    (hh : headerOf env ss = .ok hdr) :
+    ∃ b, confirm env ss proof = .ok b := by
+  rw [confirm_eq env ss hdr proof hh]
+  split
+  · exact ⟨_, rfl⟩
+  · split <;> exact ⟨_, rfl⟩
+
+/-- `confirm` itself never crashes any more, whatever the stakes and the proof: it crashes only if
+    (and exactly where) computing the header does. No hypothesis. -/
+theorem C14_confirm_never_crashes (env : Env) (ss : Sealed) (proof : List (Bytes × Bytes)) (site : String) :
+    confirm env ss proof = .crash site ↔ headerOf env ss = .crash site :=
+  confirm_crash_iff env ss proof site
+
+/-- in particular the old crash site is gone -/
+theorem C14_no_vote_overflow_crash (env : Env) (ss : Sealed) (proof : List (Bytes × Bytes)) :
+    confirm env ss proof ≠ .crash "state.rs: vote sum overflow" := by
+  intro h
+  have h' := (confirm_crash_iff env ss proof _).mp h
+  unfold headerOf at h'
+  simp only at h'
+  split at h'
+  · cases h'
+  · split at h'
+    · cases h'
+    · simp only [Outcome.bind] at h'
+      injection h' with h'
+      revert h'; decide
+
+/-- a total that reaches `u128::MAX` is treated as saturated: nothing is confirmed, whatever the proof -/
+theorem C14_saturated_total (env : Env) (ss : Sealed) (hdr : Header) (proof : List (Bytes × Bytes))
+    (hh : headerOf env ss = .ok hdr) (hsat : totalVotes ss ≥ U128_MAX) :
+    confirm env ss proof = .ok false := by
+  rw [confirm_eq env ss hdr proof hh]
+  unfold totalVotes at hsat
+  rw [if_pos hsat]
+  split <;> rfl
+
+/-- why `TalliesFit` now asks for a total strictly below `u128::MAX`: at exactly `u128::MAX` the
+    implementation cannot tell a genuine total from a saturated one and rejects even a unanimous,
+    validly signed proof, so the two-thirds rule is *not* what `confirm` computes there -/
+theorem C14_exact_max_rejected (env : Env) (ss : Sealed) (hdr : Header) (proof : List (Bytes × Bytes))
+    (hh : headerOf env ss = .ok hdr) (hmax : totalVotes ss = U128_MAX)
+    (hv : ∀ e ∈ proof, validEntry env hdr e = true) (hall : presentVotes ss proof = totalVotes ss) :
+    confirm env ss proof = .ok false ∧
+    decide ((∀ e ∈ proof, validEntry env hdr e = true) ∧
+              3 * presentVotes ss proof > 2 * totalVotes ss) = true := by
+  refine ⟨C14_saturated_total env ss hdr proof hh (by omega), decide_eq_true ⟨hv, ?_⟩⟩
+  rw [hall, hmax]; decide
 
 /-- more than two thirds confirms -/
 theorem C14_majority_confirms (env : Env) (ss : Sealed) (hdr : Header) (proof : List (Bytes × Bytes))
@@ -91,11 +152,23 @@ theorem C14_minority_rejected (env : Env) (ss : Sealed) (hdr : Header) (proof : 
 theorem C14_empty (env : Env) (ss : Sealed) (hdr : Header) (hh : headerOf env ss = .ok hdr)
     (hfit : totalVotes ss ≤ U128_MAX) (hpos : 0 < totalVotes ss) :
     confirm env ss [] = .ok false := by
-  -- (`hpos` is not needed: with no stakers `0 * 3 > 0 * 2` is false as well)
+  -- (neither hypothesis is needed any more: with no stakers `0 * 3 > 0 * 2` is false as well, and a
+  --  saturated total confirms nothing; see `C14_empty_any`)
   have _ := hpos
-  have hfit' : TalliesFit ss [] := ⟨hfit, by simp [presentVotes]⟩
-  apply C14_minority_rejected env ss hdr [] hh hfit'
-  simp [presentVotes]
+  have _ := hfit
+  by_cases ht : totalVotes ss < U128_MAX
+  · have hfit' : TalliesFit ss [] := ⟨ht, by simp [presentVotes]⟩
+    apply C14_minority_rejected env ss hdr [] hh hfit'
+    simp [presentVotes]
+  · exact C14_saturated_total env ss hdr [] hh (by omega)
+
+/-- an empty proof never confirms anything -/
+theorem C14_empty_any (env : Env) (ss : Sealed) (hdr : Header) (hh : headerOf env ss = .ok hdr) :
+    confirm env ss [] = .ok false := by
+  by_cases ht : totalVotes ss < U128_MAX
+  · apply C14_minority_rejected env ss hdr [] hh ⟨ht, by simp [presentVotes]⟩
+    simp [presentVotes]
+  · exact C14_saturated_total env ss hdr [] hh (by omega)
 
 /-- a proof signed (validly) by every key holding an active stake confirms -/
 theorem C14_unanimous (env : Env) (ss : Sealed) (hdr : Header) (proof : List (Bytes × Bytes))
@@ -146,10 +219,17 @@ theorem C14_old_inverted : oldEnough 90 0 = true ∧ oldEnough 90 90 = false := 
 end Mel
 
 #print axioms Mel.C14_invalid_signature
+#print axioms Mel.C14_decision_total
 #print axioms Mel.C14_decision
+#print axioms Mel.C14_confirm_total
+#print axioms Mel.C14_confirm_never_crashes
+#print axioms Mel.C14_no_vote_overflow_crash
+#print axioms Mel.C14_saturated_total
+#print axioms Mel.C14_exact_max_rejected
 #print axioms Mel.C14_majority_confirms
 #print axioms Mel.C14_minority_rejected
 #print axioms Mel.C14_empty
+#print axioms Mel.C14_empty_any
 #print axioms Mel.C14_unanimous
 #print axioms Mel.C14_monotone
 #print axioms Mel.C14_old_inverted
